@@ -625,6 +625,28 @@ impl LinkRelay<()> {
     }
 }
 
+impl<O> LinkRelay<O> {
+    /// Fail the deliveries of a sending link that still wait for an outcome.
+    ///
+    /// Called when the session side of the link goes away (the session or connection
+    /// stopped, or the remote peer detached the link): no disposition can arrive for them
+    /// any more. The messages stay in the unsettled map so that the link can still be
+    /// resumed; only the waiting `DeliveryFut`s are woken (they then report the recorded
+    /// stop reason). Without this, a `send()` waiting for its outcome never completed
+    /// because the `Sender` itself keeps the unsettled map alive.
+    pub(crate) fn fail_pending_deliveries(&self) {
+        if let LinkRelay::Sender { unsettled, .. } = self {
+            let mut guard = unsettled.write();
+            if let Some(map) = guard.as_mut() {
+                for message in map.values_mut() {
+                    let (dead, _) = tokio::sync::oneshot::channel();
+                    drop(std::mem::replace(&mut message.sender, dead));
+                }
+            }
+        }
+    }
+}
+
 impl LinkRelay<OutputHandle> {
     pub(crate) async fn send(
         &mut self,
